@@ -115,7 +115,10 @@ func run(c *vf.Ctx) {
 	}
 	c.Require("boundary_uint256_cases", 80)
 	c.Require("boundary_time_cases", 100)
-	c.Require("boundary_values", 200)
+	c.Require("boundary_values", 500)
+	c.Require("boundary_utf8_cases/valid", 300)
+	c.Require("boundary_utf8_cases/invalid", 150)
+	c.Require("boundary_utf8_cases/bounds-4..6", 20)
 	c.Require("feature_pairs", 90)
 	c.Require("stream_cases", 300)
 	c.Require("stream_sequences", c.Pick(12000, 240000))
